@@ -704,7 +704,7 @@ def run(ctx):
     run_batch(ctx, corpus, classes, "engine")
 
     cases = []
-    count = ctx.budget(36, 400)
+    count = ctx.budget(36, 1200)
     for i in range(count):
         static = gen_static(rng)
         nops = rng.choice([rng.randint(50, 120), rng.randint(50, 400)])
@@ -718,7 +718,7 @@ def run(ctx):
     # real threshold, decided by the real literal: > 5000 points pre-loaded
     literal = threshold_literal()
     real_cases = []
-    for i in range(ctx.budget(1, 4)):
+    for i in range(ctx.budget(1, 6)):
         count0 = literal + rng.choice([1, 0, 3])          # at the boundary (n = T: not yet) and above it
         static, init = preload_static(rng, count0, 24)
         real_cases.append(gen_history(rng, static, rng.randint(50, 90), None, init=init, few_queries=True,
@@ -727,13 +727,13 @@ def run(ctx):
 
     # outside the protocol: correspondence only
     off = []
-    for i in range(ctx.budget(6, 40)):
+    for i in range(ctx.budget(6, 100)):
         static = gen_static(rng)
         T = rng.choice([1, 3, 6]) if classes else None
         off.append(gen_history(rng, static, rng.randint(20, 60), T, offprotocol=True))
     run_batch(ctx, off, classes, "engine-offprotocol", oracle=False)
 
-    min_image_laws(ctx, rng, ctx.budget(300, 5000))
+    min_image_laws(ctx, rng, ctx.budget(300, 20000))
 
 
 def replay(ctx, data):
